@@ -354,4 +354,164 @@ theorem stake_accounting_counterexample : ¬ FullStatementStakeFrame := by
   have := h toyCfg _ tApplyCrafted .val [0x11] toy_codecId toy_rawOK hr (by decide)
   exact absurd this (by decide)
 
+/-! ## locked + scheduled + liquid tokens are constant
+
+`balSum st A` is the liquid balance of the (duplicate-free) address list `A`, `wei * stakeAt …` the
+tokens locked for the transaction's target, `pendingSum st.pending` the refunds recorded in the
+block's context (moved to the per-height escrow account at the block end), `st.escrow` the escrow.
+Each accepted miner transaction keeps their sum — under the bounds the proof forces:
+stake/delta < 2^53 (the debit goes through `float64`), no `uint64` wrap, a fresh stake slot on
+application, and for refunds that the block's refund list for that height is either new or already
+contains the account (`lock_conservation_counterexample` shows what happens otherwise). -/
+
+theorem lock_conservation_partial_apply (cfg : Cfg) (st : State) (src id : Bytes) (typ stake : Nat) (acct pk vrf : Bytes)
+    (A : List Bytes) (hn : A.Nodup) (hp : feePayer src ∈ A) (hf : feeAccount ∈ A) (hs : toAddr src ∈ A)
+    (hok : (runTx cfg st (.apply src id typ stake acct pk vrf)).1 = "ok") (hu : Untouched cfg id id)
+    (hb : stake < 2 ^ 53) (hfresh : stakeAt cfg st (dbOfType typ) id = 0) :
+    balSum (runTx cfg st (.apply src id typ stake acct pk vrf)).2 A
+        + wei * stakeAt cfg (runTx cfg st (.apply src id typ stake acct pk vrf)).2 (dbOfType typ) id
+        + pendingSum (runTx cfg st (.apply src id typ stake acct pk vrf)).2.pending
+      = balSum st A + wei * stakeAt cfg st (dbOfType typ) id + pendingSum st.pending
+    ∧ (runTx cfg st (.apply src id typ stake acct pk vrf)).2.escrow = st.escrow := by
+  rw [stake_accounting_apply cfg st src id typ stake acct pk vrf hok hu, hfresh]
+  obtain ⟨st1, hfee, hex, hst⟩ := runTx_ok cfg st _ hok
+  have hl := processFee_live st st1 _ hfee
+  have hbs := balSum_processFee st st1 src A hn hp hf hfee
+  rw [hst]
+  simp only [execute] at hex ⊢
+  obtain ⟨_, _, heq⟩ := execApply_ok cfg st1 src id typ stake acct pk vrf hex
+  rw [heq] at hex ⊢
+  obtain ⟨hap, hle, _, _⟩ := addMiner_ok cfg st1 _ _ _ _ hex
+  rw [hap]
+  unfold addMinerApply
+  have hpend := updateMiner_pending cfg (st1.subBal (toAddr src) (stakeWei stake))
+    { id := id, typ := typ, stake := stake, status := statusNormal, applyHeight := st1.height + heightAfterStake,
+      account := if isEmptySlice acct then src else acct }
+    (some { id := id, pk := pk, vrf := vrf, applyHeight := st1.height + heightAfterStake, typ := typ })
+  have hbal := updateMiner_bal cfg (st1.subBal (toAddr src) (stakeWei stake))
+    { id := id, typ := typ, stake := stake, status := statusNormal, applyHeight := st1.height + heightAfterStake,
+      account := if isEmptySlice acct then src else acct }
+    (some { id := id, pk := pk, vrf := vrf, applyHeight := st1.height + heightAfterStake, typ := typ })
+  simp only at hpend hbal ⊢
+  rw [balSum_of_bal _ _ hbal A, hpend.1, hpend.2.1]
+  have hsub := balSum_subBal st1 (toAddr src) (stakeWei stake) A hs hn hle
+  have hw : stakeWei stake = wei * stake := by unfold stakeWei; rw [f64_small _ hb, Nat.mul_comm]
+  refine ⟨?_, hl.2.2.2.1⟩
+  show balSum (st1.subBal (toAddr src) (stakeWei stake)) A + wei * stake + pendingSum st1.pending = _
+  rw [hl.2.2.1]
+  omega
+
+theorem lock_conservation_partial_add (cfg : Cfg) (st : State) (src id : Bytes) (delta : Nat)
+    (A : List Bytes) (hn : A.Nodup) (hp : feePayer src ∈ A) (hf : feeAccount ∈ A) (hs : toAddr src ∈ A)
+    (hr : RecKeyed cfg st) (hd : delta ≠ 0) (hok : (runTx cfg st (.add src id delta)).1 = "ok") (hu : Untouched cfg id id)
+    (hb : delta < 2 ^ 53) :
+    ∃ m, getMiner cfg st id = some m ∧ (stakeAt cfg st (dbOfType m.typ) id + delta < 2 ^ 64 →
+      balSum (runTx cfg st (.add src id delta)).2 A + wei * stakeAt cfg (runTx cfg st (.add src id delta)).2 (dbOfType m.typ) id
+          + pendingSum (runTx cfg st (.add src id delta)).2.pending
+        = balSum st A + wei * stakeAt cfg st (dbOfType m.typ) id + pendingSum st.pending
+      ∧ (runTx cfg st (.add src id delta)).2.escrow = st.escrow) := by
+  obtain ⟨m, hm, hstake⟩ := stake_accounting_add cfg st src id delta hr hd hok hu
+  refine ⟨m, hm, ?_⟩
+  intro hnw
+  rw [hstake, Nat.mod_eq_of_lt hnw]
+  obtain ⟨st1, hfee, hex, hst⟩ := runTx_ok cfg st _ hok
+  have hl := processFee_live st st1 _ hfee
+  have hbs := balSum_processFee st st1 src A hn hp hf hfee
+  rw [hst]
+  simp only [execute] at hex ⊢
+  obtain ⟨_, heq⟩ := execAdd_ok cfg st1 src id delta hex
+  rw [heq] at hex ⊢
+  obtain ⟨m', hm', hap, hle⟩ := addStake_ok cfg st1 _ id delta hd hex
+  rw [hap]
+  unfold addStakeApply
+  have hpend := updateMiner_pending cfg (st1.subBal (toAddr src) (stakeWei delta))
+    { m' with stake := (m'.stake + delta) % 2 ^ 64,
+              status := if reactivates m'.typ ((m'.stake + delta) % 2 ^ 64) then statusNormal else m'.status } none
+  have hbal := updateMiner_bal cfg (st1.subBal (toAddr src) (stakeWei delta))
+    { m' with stake := (m'.stake + delta) % 2 ^ 64,
+              status := if reactivates m'.typ ((m'.stake + delta) % 2 ^ 64) then statusNormal else m'.status } none
+  simp only at hpend hbal ⊢
+  rw [balSum_of_bal _ _ hbal A, hpend.1, hpend.2.1]
+  have hsub := balSum_subBal st1 (toAddr src) (stakeWei delta) A hs hn hle
+  have hw : stakeWei delta = wei * delta := by unfold stakeWei; rw [f64_small _ hb, Nat.mul_comm]
+  refine ⟨?_, hl.2.2.2.1⟩
+  show balSum (st1.subBal (toAddr src) (stakeWei delta)) A + wei * (stakeAt cfg st (dbOfType m.typ) id + delta) + pendingSum st1.pending = _
+  rw [hl.2.2.1, Nat.mul_add]
+  omega
+
+theorem lock_conservation_partial_refund (cfg : Cfg) (st : State) (src id : Bytes) (amount : Nat)
+    (A : List Bytes) (hn : A.Nodup) (hp : feePayer src ∈ A) (hf : feeAccount ∈ A)
+    (hr : RecKeyed cfg st) (hok : (runTx cfg st (.refund src id amount)).1 = "ok") (hu : Untouched cfg id id)
+    (hpn : (st.pending.map Prod.fst).Nodup)
+    (hclash : ∀ l, st.pending.lookup (st.height + refundDelay) = some l → l.any (fun e => e.1 = src) = true) :
+    ∃ m, getMiner cfg st id = some m ∧
+      balSum (runTx cfg st (.refund src id amount)).2 A + wei * stakeAt cfg (runTx cfg st (.refund src id amount)).2 (dbOfType m.typ) id
+          + pendingSum (runTx cfg st (.refund src id amount)).2.pending
+        = balSum st A + wei * stakeAt cfg st (dbOfType m.typ) id + pendingSum st.pending
+      ∧ (runTx cfg st (.refund src id amount)).2.escrow = st.escrow := by
+  obtain ⟨m, hm, hacc, hs, hle, hstake⟩ := stake_accounting_refund cfg st src id amount hr hok hu
+  refine ⟨m, hm, ?_⟩
+  rw [hstake]
+  obtain ⟨st1, hfee, hex, hst⟩ := runTx_ok cfg st _ hok
+  have hl := processFee_live st st1 _ hfee
+  have hbs := balSum_processFee st st1 src A hn hp hf hfee
+  rw [hst]
+  simp only [execute] at hex ⊢
+  obtain ⟨m', hm', _, _, hap⟩ := execRefund_ok cfg st1 src id amount hex
+  have hmm : m' = m := by
+    rw [getMiner_congr cfg st st1 hl.1, hm] at hm'
+    exact (Option.some.inj hm').symm
+  subst hmm
+  rw [hap]
+  have hfl := refundCore_fields cfg st1 id src m' (refundMoney m' amount)
+  have hb : balSum (refundApply cfg st1 id src m' (refundMoney m' amount)) A = balSum st1 A :=
+    balSum_of_bal _ _ hfl.2.2.2 A
+  have hpd : (refundApply cfg st1 id src m' (refundMoney m' amount)).pending
+      = pendingAdd st.pending (st.height + refundDelay) src (refundMoney m' amount * wei) := by
+    show pendingAdd (refundCore cfg st1 id src m' (refundMoney m' amount)).pending
+      ((refundCore cfg st1 id src m' (refundMoney m' amount)).height + refundDelay) m'.account _ = _
+    rw [hfl.1, hfl.2.2.1, hl.2.2.1, hl.2.2.2.2.2, hacc]
+  have hesc : (refundApply cfg st1 id src m' (refundMoney m' amount)).escrow = st.escrow := by
+    show (refundCore cfg st1 id src m' (refundMoney m' amount)).escrow = _
+    rw [hfl.2.1, hl.2.2.2.1]
+  rw [hb, hpd, hesc, pendingSum_pendingAdd _ _ _ _ hpn hclash, hbs]
+  refine ⟨?_, rfl⟩
+  have : wei * (stakeAt cfg st (dbOfType m'.typ) id - refundMoney m' amount) + refundMoney m' amount * wei
+      = wei * stakeAt cfg st (dbOfType m'.typ) id := by
+    rw [Nat.mul_comm (refundMoney m' amount) wei, ← Nat.mul_add]
+    congr 1
+    omega
+  omega
+
+def tApplyA : Tx := .apply addr1 [0x11] 0 800 [] [1] [1]
+def tApplyB : Tx := .apply addr2 [0x22] 0 800 [] [1] [1]
+def opsTwoRefunds : List Op := [.tx tApplyA, .tx tApplyB, .endBlock 101, .tx (.refund addr1 [0x11] 100)]
+
+/-- Non-vacuity: the first refund of a block satisfies the hypotheses and is accepted. -/
+example : (runTx toyCfg (run toyCfg funded [.tx tApplyA, .tx tApplyB, .endBlock 101]) (.refund addr1 [0x11] 100)).1 = "ok"
+    ∧ (run toyCfg funded [.tx tApplyA, .tx tApplyB, .endBlock 101]).pending = [] := by decide
+
+/-- The refund clause with no condition on the block's refund list. -/
+def FullStatementRefundConserves : Prop :=
+  ∀ cfg st src id amount d, CodecId cfg → RawOK cfg → Reachable cfg st → Untouched cfg id id →
+    (runTx cfg st (.refund src id amount)).1 = "ok" →
+    wei * stakeAt cfg (runTx cfg st (.refund src id amount)).2 d id + pendingSum (runTx cfg st (.refund src id amount)).2.pending
+      = wei * stakeAt cfg st d id + pendingSum st.pending
+
+/-- False of the code: the second *account* refunding in one block (same release height) has its stake
+    reduced but nothing recorded — `minerRefundExecutor` appends to a copy of the per-height list. -/
+theorem lock_conservation_counterexample : ¬ FullStatementRefundConserves := by
+  intro h
+  have hr : Reachable toyCfg (run toyCfg funded opsTwoRefunds) :=
+    ⟨100, _, opsTwoRefunds, by
+      intro o ho
+      simp only [opsTwoRefunds, List.mem_cons, List.not_mem_nil, or_false] at ho
+      rcases ho with rfl | rfl | rfl | rfl
+      · exact ⟨by decide, by decide⟩
+      · exact ⟨by decide, by decide⟩
+      · trivial
+      · trivial, rfl⟩
+  have := h toyCfg _ addr2 [0x22] 100 .val toy_codecId toy_rawOK hr (by simp [Untouched, toyCfg]) (by decide)
+  exact absurd this (by decide)
+
 end Rangers.Props.C20
